@@ -16,7 +16,7 @@ PENDING = 'check not built yet in this session (see DESIGN.md section 8 build or
 LEVEL_TEXT = {
     'C09': '(a) Bounded symbolic verification of the runtime C-string / C-buffer helpers (CStrCopy, CStrDup, CString, StringFromCStr, GoString, CBytes, GoBytes): all strings <= 4 bytes over arbitrary previous buffer contents. (b) For 112 struct shapes (every 1- and 2-field combination of int8..int64/float/double/pointer, selected 3..17-field, nested and array shapes; +250 random shapes in thorough) x six positions (argument to C after one, after five integer and after seven double arguments - the latter two exhaust the argument registers -, result from C, argument of a Go callback called from C, result of a Go callback): llgo\'s IR after its C-ABI transformation and the host C compiler\'s (clang-14) IR of the C side are executed together on symbolic field bits; the solver proves every field arrives intact, and every call between the sides must match its definition in flattened scalar types and byval/sret/extension attributes.',
     'C06': 'Bounded symbolic verification of the real runtime map.go (mapassign / mapaccess1,2 / mapdelete / mapclear / mapiterinit+next, growth and evacuation) against a ghost finite map: arbitrary (solver-chosen) hash function, symbolic keys and values, scripted and symbolic operation sequences within the stated lengths, including an all-colliding hash that forces overflow chains and same-size growth.',
-    'C07': 'Translation validation of generated multi-package programs in which 43 near-miss type pairs (one attribute apart: field names, tags, embedding, package of unexported names, variadic-ness, channel direction, generic instances, local types) and 12 (concrete type, interface) pairs meet at run time through assertion, type switch, ==, any-keyed maps and method calls: the oracle decides identity / method sets with go/types, llgo\'s descriptors (emitted IR) are interpreted by llgo\'s own runtime source (Implements, NewItab, EfaceEqual, typehash, map.go). Plus equivalence of every multiply-defined descriptor symbol.',
+    'C07': 'Translation validation of generated multi-package programs in which 61 near-miss type pairs (one attribute apart: field names, tags, embedding, package of unexported names, variadic-ness, channel direction, generic instances, local types) and 12 (concrete type, interface) pairs meet at run time through assertion, type switch, ==, any-keyed maps and method calls: the oracle decides identity / method sets with go/types, llgo\'s descriptors (emitted IR) are interpreted by llgo\'s own runtime source (Implements, NewItab, EfaceEqual, typehash, map.go). Plus equivalence of every multiply-defined descriptor symbol.',
     'C12': 'Translation validation of generated multi-package programs whose package-level variables depend on each other across files and packages and on external values: the synthesized initialisers (dependencies first, variables in dependency order, init functions in source order, once) are executed on llgo\'s IR of every package and compared, as external-call traces and results, with Go-specification initialisation order (go/ssa init functions) for every external value.',
     'C14': 'Translation validation of naming-stress multi-package programs (same-named methods / functions / packages, nested closures in methods, generic functions, types and methods instantiated in several packages with local, aliased and composite type arguments, descriptor near-misses) plus a solver-checked merge-equivalence: every symbol that several modules define must be mergeable and its definitions equivalent (function bodies compared on arbitrary arguments, constant data structurally).',
     'C01': 'Translation validation of a corpus of core-language functions (branches, loops, labelled jumps, switch, multiple assignment, structs/arrays by value and through pointers, closures, methods, embedding, interfaces, type switches, generics, every range form, evaluation order, strings/slices): each function is executed under Go-specification semantics on its own unmodified go/ssa build and on the IR llgo\'s real pipeline emits (both before and after the default C-ABI transformation), with llgo\'s runtime entry points executed from their Go source; the solver proves equal results / panics / external-call traces for all argument values within the loop bound.',
@@ -35,7 +35,7 @@ NOTE = {
     'C09': 'x86-64 SysV only, llgo ABI mode 2 (default), C side at -O0 for the symbolic run (-O2 and -O0 in the native replay); agreement is checked at LLVM-IR level (both sides lowered by the same LLVM back end): register assignment inside the back end is trusted. Variadic calls, other mixes of extra arguments than 1 / 5 integer / 7 double leading ones, compiling C files through internal/build and C.CString of strings with interior NUL are outside. Known findings: narrow integers passed without signext/zeroext; register-sized structs still split into scalars when the argument registers are used up.',
     'C06': 'Maps with <= 9 live entries (<= 2 growths) in quick, key kinds uint64 / string-like / colliding; NaN keys, iteration order randomisation while growing and the compiler lowering of map operations (covered by C01 corpus entries only) are outside.',
     'C07': 'The quantifier all pairs of types is met through the listed pairs only; reflect type comparison and the pure naming API sweep are outside (enumeration, not solver work). Counterexample replay: llc-14 build of every package + llgo\'s runtime IR vs the Go toolchain.',
-    'C12': 'Four program shapes (chain, diamond, pass-through package, function-valued initialisers); the entry module that calls runtime.init / main.init (internal/build main_module.go) is outside: the check starts at the root package initialiser.',
+    'C12': 'Five program shapes (chain, diamond, pass-through package, function-valued initialisers, one package in three files); the entry module that calls runtime.init / main.init (internal/build main_module.go) is outside: the check starts at the root package initialiser.',
     'C14': 'Three program shapes; linkname/export directives and C-callback wrappers are outside; equivalence of descriptor data is structural (private string constants compared by content).',
     'C01': 'The quantifier all programs is met only through the hand-written corpus (58 functions, each also after the default cabi transform) and a grammar-generated sample of total integer/array/struct/closure functions (48 quick, 400 thorough, VERIF_SEED selects the sample; per-function budget 30 s / 180 s, overruns are reported inconclusive); loop bound 8; LLVM 14 binding as IR producer; optimisation level O2, linking, process exit codes and gc/nogc configuration are outside. Known finding: ssa_order_fix.',
     'C03': 'Signal delivery (SIGSEGV re-arming) is not modelled; nil-map writes and failed type assertions (llgo raises the latter with a string value, not a runtime.Error - the property only asks for a panic) are covered by 7 forms; channel panics (send on / close of a closed or nil channel, plain and in select) are covered for one goroutine through 9 forms against an oracle channel model; nil faults are modelled as accesses inside the unmapped 1 MiB nil region.',
